@@ -149,7 +149,7 @@ def gen_cases(ctx):
         add({'kind': 'sym', 'a': [[pair(x) for x in r] for r in rows], 'order': order, 'eng': eng,
              'order_as': 'ndarray'})
     # --- principal components / reconstruction
-    reps = 6 if thorough else 1
+    reps = 20 if thorough else 1
     for _ in range(reps):
         for M in INT_ROT:
             for label, lam in tensor_menu(rng):
@@ -159,14 +159,14 @@ def gen_cases(ctx):
                 a = array_from_matrix(A, eng, order)
                 add({'kind': 'pc', 'a': [[pair(x) for x in a]], 'order': order, 'eng': eng,
                      'label': label})
-    for _ in range(40 if thorough else 8):      # random integer / dyadic symmetric tensors
+    for _ in range(200 if thorough else 8):      # random integer / dyadic symmetric tensors
         n = rng.randint(1, 3)
         rows = [[dyadic(rng, rng.choice(['mid', 'int', 'small'])) for _ in range(6)] for _ in range(n)]
         add({'kind': 'pc', 'a': [[pair(x) for x in r] for r in rows],
              'order': rng.choice([None, rng.sample(range(6), 6)]), 'eng': rng.random() < 0.5,
              'label': 'random'})
     # --- strain inversion (I + A well conditioned .. moderately ill conditioned)
-    for _ in range(60 if thorough else 14):
+    for _ in range(300 if thorough else 14):
         kind = rng.choice(['small', 'small', 'spectrum', 'near'])
         eng = rng.random() < 0.5
         if kind == 'small':
@@ -184,7 +184,7 @@ def gen_cases(ctx):
             rows = [[Fr(float(x)) for x in r] for r in rows]   # round to binary64 if needed
         add({'kind': 'inv', 'a': [[pair(x) for x in r] for r in rows], 'eng': eng, 'label': kind})
     # --- thermal expansion global -> local -> global
-    for _ in range(30 if thorough else 8):
+    for _ in range(150 if thorough else 8):
         n = rng.randint(1, 3)
         rows = []
         for _r in range(n):
@@ -199,7 +199,7 @@ def gen_cases(ctx):
              'name_in': rng.choice(['lte_full', 'linear_thermal_expansion_coefficient_full']),
              'pop': rng.random() < 0.7})
     # --- sparse alignment
-    for _ in range(200 if thorough else 40):
+    for _ in range(1000 if thorough else 40):
         nr, nc = rng.randint(1, 5), rng.randint(1, 5)
         mats = []
         for _m in range(rng.randint(1, 5)):
@@ -616,6 +616,17 @@ def main(ctx):
                           'correspondence C17 (Corr.chk_%s)' % c['kind'], found_input=False,
                           signature=dict(sig_of(c, 'correspondence')),
                           what='implementation result not reproduced by the model')
+    # informational probe: (s + D) - D in binary64 (modelled as exact; see notes)
+    try:
+        probe = {'id': 0, 'kind': 'align', 'shape': [1, 2], 'mats': [{'format': 'csr', 'entries': [
+            [0, 0, pair(Fr(float(1e-20)))], [0, 1, pair(Fr(-1))]]}]}
+        pr = run_impl(ctx, [probe], tag='probe')[0]
+        ctx.notes['align_float_caveat_probe'] = {
+            'input': '[[1e-20, -1.0]]',
+            'output': [float(frs(e[2])) for e in pr['out'][0]['entries']] if 'out' in pr else pr,
+            'note': 'binary64 absorbs entries below ulp(D)/2; the theorem is about exact arithmetic'}
+    except Exception as e:      # noqa
+        ctx.notes['align_float_caveat_probe'] = 'probe failed: ' + str(e)[:200]
     # 6. broken tie / proof without a failing input
     if not tie_ok and n_bad == 0:
         ctx.violation('tie-broken', {'translator_error': ctx.notes.get('translator_error')},
